@@ -6,7 +6,7 @@ import itertools
 import core
 import gen
 import ops  # noqa: F401  (registers the implementation side of every op)
-from ops_attrs import ahist_line, attr_render_line, consolidate_line, describe
+from ops_attrs import ahist_line, attr_render_line, consolidate_line, consolidate_args_line, describe
 from wire import es
 
 PID = "C15"
@@ -26,7 +26,9 @@ MANIFEST = dict(
          "driver on the real answers (holds C15), each step judged from the implementation's own previous state.",
     design="DESIGN.md §6 C15",
     note="Modelled, not verified: Python dict insertion order and isinstance dispatch; str(number) is supplied by the "
-         "harness; children of consolidate_attrs are opaque (TagList validation is C14's). The merge of a plain "
+         "harness; whether the children of consolidate_attrs are accepted is C14's model of TagList(*children) "
+         "(consolidate_args: unsupported objects, dicts / sets inside lists, bytes, range … among the children; generators, "
+         "being one-shot, are not generated). The merge of a plain "
          "with an HTML() value is modelled as C03 demands (attribute-escaped), so the pinned tree shows F-C03 here "
          "until fixes/C03-merge-attr-escape.patch is applied.",
     technique="Lean 4 proofs (closed form of a fold over association lists, override lemma, round trip) + "
@@ -120,6 +122,43 @@ def rand_tagargs(rng):
             args.append(("d", rand_dict(rng, 3)))
         else:
             args.append(("c", gen.rand_node(rng, rng.randint(0, 2), leaves=("text", "html", "meta"))))
+    return args
+
+
+def _no_gen_no_top_dict(a, top=True) -> bool:
+    """generators are one-shot (the throw-away Tag consumes them); a dict at top level is an attribute dict"""
+    if a[0] == "seq":
+        if a[1] == "gen" or (top and a[1] == "dict"):
+            return False
+        return all(_no_gen_no_top_dict(x, False) for x in a[2])
+    if a[0] in ("list", "tuple", "tl"):
+        return all(_no_gen_no_top_dict(x, False) for x in a[1])
+    return True
+
+
+BAD_KIDS = [("bad", 0), ("bad", 2), ("bad", 8), ("list", [("bad", 0)]), ("list", [("seq", "dict", [("node", ("text", "k"))])]),
+            ("tuple", [("node", ("text", "a")), ("seq", "set", [("node", ("text", "k"))])]), ("seq", "bytes", [("num", "i", "65")]),
+            ("seq", "range", [("num", "i", "0")]), ("tl", [("bad", 1)]), ("list", [("none",), ("list", [("bad", 3)])])]
+GOOD_KIDS = [("node", ("text", "k0")), ("none",), ("num", "i", "3"), ("num", "f", "1.5"), ("node", ("tag", "span", False, [], [])),
+             ("list", [("node", ("text", "a")), ("none",), ("tuple", [("num", "i", "1")])]), ("node", ("html", "<b>")),
+             ("tl", [("node", ("text", "t"))]), ("list", [])]
+
+
+def rand_tagargs_any(rng):
+    """positional arguments of consolidate_attrs with arbitrary values among the children"""
+    from props.c14 import rand_arg
+    args = []
+    for _ in range(rng.randint(0, 5)):
+        r = rng.random()
+        if r < 0.35:
+            args.append(("d", rand_dict(rng, 3)))
+        elif r < 0.5:
+            args.append(("a", rng.choice(BAD_KIDS)))
+        else:
+            a = rand_arg(rng, rng.randint(0, 3), bad_p=rng.choice([0.0, 0.04, 0.15]))
+            while not _no_gen_no_top_dict(a):
+                a = rand_arg(rng, rng.randint(0, 3), bad_p=0.04)
+            args.append(("a", a))
     return args
 
 
@@ -225,6 +264,31 @@ def run(tier: str) -> int:
             for d in dicts:
                 args += [("d", d), ("c", ("tag", "span", False, [], []))]
             cases.append((consolidate_line(args, kw), True, "consolidate-small"))
+
+    # 7. consolidate_attrs with arbitrary values among the non-dict arguments: raises iff building the tag raises
+    n_ca = 0
+    kid_pool = BAD_KIDS + GOOD_KIDS
+    dict_opts = [None, [("x", ("str", "v"))], [("x_", ("bad",))]]
+    for n in (1, 2):
+        for kids in itertools.product(kid_pool, repeat=n):
+            for d in dict_opts:
+                for pos in range(n + 1):
+                    args = [("a", k) for k in kids]
+                    if d is not None:
+                        args.insert(pos, ("d", d))
+                    elif pos:
+                        continue
+                    for kw in ([], [("a_b", ("html", "h"))]):
+                        cases.append((consolidate_args_line(args, kw), True, "consolidate-args-small"))
+                        n_ca += 1
+    ck.exhaustive_scopes.append({"scope": f"consolidate_attrs(*args, **kw): all sequences of <= 2 children over {len(BAD_KIDS)} unsupported "
+                                          f"values (objects, dict / set inside a list, bytes, range, raw TagList data) and {len(GOOD_KIDS)} "
+                                          "supported ones, with no / a valid / an invalid attribute dict at every position, with and "
+                                          "without a keyword", "cases": n_ca, "exhaustive": True})
+    for _ in range(ck.budget(2500, 40000)):
+        args = rand_tagargs_any(rng)
+        kw = rand_dict(rng, 3) if rng.random() < 0.5 else []
+        cases.append((consolidate_args_line(args, kw), bool(args), "consolidate-args"))
 
     cases.sort(key=lambda c: len(c[0]))  # the first failing input reported is then a shortest one
     lines = [c[0] for c in cases]
